@@ -59,6 +59,9 @@ class Ctx:
 
     def bad(self, rule, key, node_or_loc, detail=''):
         by = getattr(self, 'deferred', {}).get(rule)
+        if by and isinstance(by, tuple):
+            # deferral restricted to the instance keys the evaluation really covers
+            by = by[0] if by[1](key) else None
         if by:
             # the behaviour this structural rule is about has been decided by evaluation: a mismatch
             # with the pattern is another way of writing it
@@ -66,11 +69,13 @@ class Ctx:
             return
         self.obs.append(Ob(rule, key, False, _loc(node_or_loc), detail))
 
-    def defer(self, rules, by):
+    def defer(self, rules, by, only=None):
+        """structural mismatches of `rules` become undecided because the evaluation rule `by` has decided
+        the behaviour; `only(key)` restricts this to the instance keys that evaluation covers"""
         if not hasattr(self, 'deferred'):
             self.deferred = {}
         for r in rules:
-            self.deferred[r] = by
+            self.deferred[r] = (by, only) if only is not None else by
 
     def check(self, cond, rule, key, node_or_loc, ok_detail='', bad_detail='', nontrivial=True):
         if cond:
